@@ -82,6 +82,20 @@ func c03(c *core.Ctx, r *core.Report) {
 	}
 	r.Exhaustive = und == "" && iund == "" && eund == ""
 
+	// R7: the registry hands out one early reference per creation and keeps it visible to lookups that do not allow
+	// creating one (the creator's version check relies on it)
+	for _, T := range c.Implementors(c.Iface("container", "SingletonComponentRegistry")) {
+		sub := core.NewReport("C04", c.Tier, 0)
+		c04Explore(c, sub, T)
+		for _, o := range sub.Obls {
+			if o.Rule == "C04.A1" || o.Rule == "C04.A3" || o.Verdict == core.Undecided {
+				o2 := *o
+				o2.Rule = "C03.R7"
+				o2.Construct = o.Rule + ":" + o.Construct
+				r.Obls = append(r.Obls, &o2)
+			}
+		}
+	}
 	// R6b: presence flags of the delegate are only ever set to true, and only where a processor is registered
 	c03Flags(c, r)
 
